@@ -32,7 +32,7 @@ for pid in sorted(claimed):
       "quick_cmd":"/verif/bin/gosym check %s --tier quick"%pid,
       "thorough_cmd":"/verif/bin/gosym check %s --tier thorough"%pid,
       "evidence_file":"/verif/evidence/%s.json"%pid,
-      "replay_cmd_template":"cat {path}  # nondet vector + harness; re-run: /verif/bin/gosym check %s"%pid,
+      "replay_cmd_template":"/verif/bin/gosym replay {path}",
       "engine":"gosym",
       "level_claimed":{"category":"model_checking","text":text+" Bounded: every path within the stated bounds is decided by z3 (QF_BV); nothing outside the bounds is claimed.","design_ref":"DESIGN.md section 3 "+pid},
       "level_note":note+"; engine soundness rests on witness replay against the native build on every run and native confirmation of every reported violation",
